@@ -9,21 +9,24 @@
 EXTENDS Naturals, Sequences, FiniteSets, TauBase, TauLang
 
 (* how parser.rs:1382-1550 groups the members of a list on one key *)
-BatchClass(v) ==
+(* m: the key modifier; under str() numbers and booleans are exact strings *)
+BatchClassM(v, m) ==
   IF v.t = "pat"
   THEN IF v.k = "regex" THEN <<"re", v.ic>>
        ELSE IF v.k = "any" \/ (v.k = "exact" /\ v.a = <<>>) THEN <<"solo">>
        ELSE <<"aho", v.ic>>
+  ELSE IF m = "str" /\ v.t \in {"num", "bool"} THEN <<"aho", FALSE>>
   ELSE <<"solo">>
+BatchClass(v) == BatchClassM(v, "none")
 
-Classes(vs) == {BatchClass(vs[i]) : i \in DOMAIN vs} \ {<<"solo">>}
-InClass(vs, c) == {i \in DOMAIN vs : BatchClass(vs[i]) = c}
+Classes(vs, m) == {BatchClassM(vs[i], m) : i \in DOMAIN vs} \ {<<"solo">>}
+InClass(vs, m, c) == {i \in DOMAIN vs : BatchClassM(vs[i], m) = c}
 
 (* some batch holds two or more members *)
-HasBatch(vs) == \E c \in Classes(vs) : Cardinality(InClass(vs, c)) >= 2
+HasBatch(vs, m) == \E c \in Classes(vs, m) : Cardinality(InClass(vs, m, c)) >= 2
 (* ... and it is not the whole list: the group has further entries *)
-HasPartialBatch(vs) ==
-  \E c \in Classes(vs) : Cardinality(InClass(vs, c)) >= 2 /\ Cardinality(InClass(vs, c)) < Len(vs)
+HasPartialBatch(vs, m) ==
+  \E c \in Classes(vs, m) : Cardinality(InClass(vs, m, c)) >= 2 /\ Cardinality(InClass(vs, m, c)) < Len(vs)
 
 RECURSIVE EntriesOf(_), EntriesOfList(_)
 (* all entries of a mapping body, including those of nested mappings *)
@@ -63,7 +66,7 @@ BodyOf(ids, n) == LET idx == {i \in DOMAIN ids : ids[i][1] = n} IN
 DevQuantPartialBatch(src) ==
   \E i \in DOMAIN AllEntries(src.ids) :
      LET en == AllEntries(src.ids)[i] IN
-     en.m \in {"all", "of"} /\ en.v.t = "list" /\ HasPartialBatch(en.v.vs)
+     en.m \in {"all", "of"} /\ en.v.t = "list" /\ HasPartialBatch(en.v.vs, "none")
 
 (* KF ident_list_batch: all(X)/of(X, n) in the condition over an identifier that is a mapping  *)
 (* with a single plain key whose list holds a batch: the members are not counted one by one.  *)
@@ -71,7 +74,7 @@ DevIdentListBatch(src) ==
   src.cond.t # "text" /\
   \E n \in QuantNames(src.cond) :
      LET b == BodyOf(src.ids, n) IN
-     b.t = "map" /\ Len(b.es) = 1 /\ b.es[1].v.t = "list" /\ HasBatch(b.es[1].v.vs)
+     b.t = "map" /\ Len(b.es) = 1 /\ b.es[1].v.t = "list" /\ HasBatch(b.es[1].v.vs, b.es[1].m)
 
 (* ----- negation contexts: the only places where false and missing are told apart ----- *)
 RECURSIVE CondHasNot(_), CondHasOf0(_), CondDoubleNot(_)
@@ -129,12 +132,26 @@ DevMergeBatch(src) ==
         /\ BatchClass(b.ms[i].es[1].v) # <<"solo">>
         /\ SeqBatchKey(b.ms[i]) = SeqBatchKey(b.ms[j])
 
+(* KF quant_batch_array: a quantified batch evaluated on an array field (per element).         *)
+RECURSIVE HasMultiArray(_)
+HasMultiArray(v) ==
+  CASE v.t = "A" -> Len(v.vs) >= 2 \/ \E i \in DOMAIN v.vs : HasMultiArray(v.vs[i])
+    [] v.t = "O" -> \E i \in DOMAIN v.kv : HasMultiArray(v.kv[i][2])
+    [] OTHER -> FALSE
+DevQuantBatchArray(src, doc) ==
+  HasMultiArray(doc) /\
+  \/ \E i \in DOMAIN AllEntries(src.ids) :
+        LET en == AllEntries(src.ids)[i] IN
+        en.m \in {"all", "of"} /\ en.v.t = "list" /\ HasBatch(en.v.vs, "none")
+  \/ DevIdentListBatch(src)
+
 (* d: 1-based index of the judged document, 0 when the judgement is not about a document *)
 Devs(c, d) ==
   IF "src" \notin DOMAIN c \/ "ids" \notin DOMAIN c.src \/ c.src.cond.t = "text" THEN {}
   ELSE LET indefinite == d \in DOMAIN c.docs /\ ~Definite(c.src, c.docs[d]) IN
        (IF DevQuantPartialBatch(c.src) THEN {"quant_partial_batch"} ELSE {})
        \cup (IF DevIdentListBatch(c.src) THEN {"ident_list_batch"} ELSE {})
+       \cup (IF d \in DOMAIN c.docs /\ DevQuantBatchArray(c.src, c.docs[d]) THEN {"quant_batch_array"} ELSE {})
        \cup (IF DevFlattenSeq(c.src) THEN {"shake_flatten_seq"} ELSE {})
        \cup (IF DevMergeBatch(c.src) THEN {"shake_merge_batch"} ELSE {})
        \cup (IF HasNegCtx(c.src) /\ indefinite THEN {"opt_reorder"} ELSE {})
